@@ -79,6 +79,13 @@ func (a *AggOracle) processLatestGER(ctx context.Context, blockNumToFetch *uint6
 	// Fetch the latest GER
 	blockNum, gerToInject, err := a.getLastFinalizedGER(ctx, *blockNumToFetch)
 	if err != nil {
+		// keep the block whose GER could not be fetched yet (the syncer is behind it), so that the next
+		// iteration retries that same block instead of sampling a newer finalized block every time;
+		// if the syncer holds no GER up to that block there is nothing to wait for: sample again
+		*blockNumToFetch = blockNum
+		if errors.Is(err, l1infotreesync.ErrNotFound) {
+			*blockNumToFetch = 0
+		}
 		return err
 	}
 
